@@ -1109,6 +1109,27 @@ pub fn unify(
     concrete_id: usize,
     program: &mut Program,
 ) -> Result<(), Error> {
+    let mut enclosing = Enclosing::default();
+    unify_in(bindings, pattern_id, concrete_id, program, &mut enclosing)
+}
+
+/// What `unify` keeps track of to follow back-references (`^`, `Type::Cycle`): the unions and
+/// function types around the current position on either side, innermost last - `Cycle(depth)`
+/// stands for the entry `depth` from the end - and the pairs a back-reference has already led to.
+#[derive(Default)]
+struct Enclosing {
+    pattern: Vec<usize>,
+    concrete: Vec<usize>,
+    followed: Vec<(usize, usize)>,
+}
+
+fn unify_in(
+    bindings: &mut HashMap<String, usize>,
+    pattern_id: usize,
+    concrete_id: usize,
+    program: &mut Program,
+    enclosing: &mut Enclosing,
+) -> Result<(), Error> {
     let pattern = program.lookup_type(pattern_id).cloned();
     let concrete = program.lookup_type(concrete_id).cloned();
 
@@ -1151,7 +1172,7 @@ pub fn unify(
         (_, Type::Variable(name)) => {
             if let Some(&resolved_id) = bindings.get(name) {
                 // Concrete variable is bound - unify with its binding
-                unify(bindings, pattern_id, resolved_id, program)
+                unify_in(bindings, pattern_id, resolved_id, program, enclosing)
             } else {
                 // Concrete variable is unbound - this shouldn't happen in normal unification
                 Err(Error::TypeUnresolved(
@@ -1177,7 +1198,7 @@ pub fn unify(
         ) => {
             // Unify send types (what can be sent TO the process)
             match (send1, send2) {
-                (Some(s1), Some(s2)) => unify(bindings, *s1, *s2, program)?,
+                (Some(s1), Some(s2)) => unify_in(bindings, *s1, *s2, program, enclosing)?,
                 (None, None) => {}
                 _ => {
                     return Err(Error::TypeUnresolved(
@@ -1187,7 +1208,7 @@ pub fn unify(
             }
             // Unify receive types (what you GET from the process)
             match (receive1, receive2) {
-                (Some(ret1), Some(ret2)) => unify(bindings, *ret1, *ret2, program)?,
+                (Some(ret1), Some(ret2)) => unify_in(bindings, *ret1, *ret2, program, enclosing)?,
                 (None, None) => {}
                 _ => {
                     return Err(Error::TypeUnresolved(
@@ -1240,7 +1261,7 @@ pub fn unify(
                         "Tuple fields have different names".to_string(),
                     ));
                 }
-                unify(bindings, *ftype1_id, *ftype2_id, program)?;
+                unify_in(bindings, *ftype1_id, *ftype2_id, program, enclosing)?;
             }
 
             Ok(())
@@ -1284,7 +1305,13 @@ pub fn unify(
                     )));
                 };
 
-                unify(bindings, *pattern_ftype_id, *concrete_ftype_id, program)?;
+                unify_in(
+                    bindings,
+                    *pattern_ftype_id,
+                    *concrete_ftype_id,
+                    program,
+                    enclosing,
+                )?;
             }
 
             Ok(())
@@ -1323,7 +1350,13 @@ pub fn unify(
                     )));
                 };
 
-                unify(bindings, *pattern_ftype_id, *concrete_ftype_id, program)?;
+                unify_in(
+                    bindings,
+                    *pattern_ftype_id,
+                    *concrete_ftype_id,
+                    program,
+                    enclosing,
+                )?;
             }
 
             Ok(())
@@ -1342,23 +1375,69 @@ pub fn unify(
                 receive: receive2,
             },
         ) => {
-            // Unify parameters (contravariant - swap order)
-            unify(bindings, *param1, *param2, program)?;
-            // Unify results (covariant)
-            unify(bindings, *result1, *result2, program)?;
-            // Unify receive types (contravariant - swap order)
-            unify(bindings, *receive1, *receive2, program)?;
-            Ok(())
+            // A function type is a boundary that a back-reference can name.
+            enclosing.pattern.push(pattern_id);
+            enclosing.concrete.push(concrete_id);
+            // Unify parameters (contravariant - swap order), results (covariant) and receive
+            // types (contravariant - swap order)
+            let result = unify_in(bindings, *param1, *param2, program, enclosing)
+                .and_then(|()| unify_in(bindings, *result1, *result2, program, enclosing))
+                .and_then(|()| unify_in(bindings, *receive1, *receive2, program, enclosing));
+            enclosing.pattern.pop();
+            enclosing.concrete.pop();
+            result
         }
 
         // Handle cycles on either side - for recursive types like list<t>.
         // A `Cycle` is a back-reference to an enclosing μ-binder, i.e. a recursive
         // occurrence of the surrounding type. The two sides can legitimately be unrolled to
         // different depths (one shows the expanded union, the other still holds the cycle),
-        // so a cycle unifies with whatever stands at the same position on the other side.
-        // This is sound because the recursive structure is checked at every non-cyclic
-        // position; the back-edge carries no additional constraint to verify here.
-        (Type::Cycle(_depth), _) | (_, Type::Cycle(_depth)) => Ok(()),
+        // so a cycle stands for the type it refers to, and that type is unified with whatever
+        // stands at the same position on the other side: the tail of `Cons[1, Cons[0x01, Nil]]`
+        // has to be a `'list<'t>` again, which is where `'t` meets `'bin`. A pair that a
+        // back-reference has already led to carries no further constraint.
+        (Type::Cycle(_), _) | (_, Type::Cycle(_)) => {
+            // How much of a side's enclosing types remains around the type to unify: all of it
+            // unless the side is a back-reference, which steps out to its referent.
+            let step_out = |ty: &Type, enclosing: &[usize]| match ty {
+                Type::Cycle(depth) => enclosing.len().checked_sub(*depth),
+                _ => Some(enclosing.len()),
+            };
+            let (Some(pattern_at), Some(concrete_at)) = (
+                step_out(&pattern, &enclosing.pattern),
+                step_out(&concrete, &enclosing.concrete),
+            ) else {
+                // A reference beyond the types being unified (e.g. to the function that the
+                // parameter belongs to): nothing to compare with.
+                return Ok(());
+            };
+            // The referent is the outermost of the types stepped out of (they are put back
+            // afterwards); unifying it enters it again.
+            let pattern_inner = enclosing.pattern.split_off(pattern_at);
+            let concrete_inner = enclosing.concrete.split_off(concrete_at);
+            let pair = (
+                pattern_inner.first().copied().unwrap_or(pattern_id),
+                concrete_inner.first().copied().unwrap_or(concrete_id),
+            );
+            if !enclosing.followed.contains(&pair) {
+                let mark = enclosing.followed.len();
+                enclosing.followed.push(pair);
+                // What the unrolled types determine is kept: a type variable met again down the
+                // list widens. A mismatch is NOT an error yet: unions that the compiler builds
+                // from recursive types (narrowing, widening) can carry back-references that name
+                // another boundary than they did where they were written, and std relies on such
+                // types unifying (std/dict.qv passes its inline children list for a `'list`).
+                let mut followed_bindings = bindings.clone();
+                if unify_in(&mut followed_bindings, pair.0, pair.1, program, enclosing).is_ok() {
+                    *bindings = followed_bindings;
+                } else {
+                    enclosing.followed.truncate(mark);
+                }
+            }
+            enclosing.pattern.extend(pattern_inner);
+            enclosing.concrete.extend(concrete_inner);
+            Ok(())
+        }
 
         // Never type (empty union) unifies with anything
         (Type::Union(variants), _) if variants.is_empty() => Ok(()),
@@ -1382,15 +1461,19 @@ pub fn unify(
                 .sort_by_key(|&v| matches!(program.lookup_type(v), Some(Type::Variable(_))));
             let concrete_variants = concrete_variants.clone();
 
+            enclosing.pattern.push(pattern_id);
+            enclosing.concrete.push(concrete_id);
+            let mut result = Ok(());
             for &concrete_variant in &concrete_variants {
                 let mut found_match = false;
                 for &pattern_variant in &pattern_variants {
                     let mut temp_bindings = bindings.clone();
-                    if unify(
+                    if unify_in(
                         &mut temp_bindings,
                         pattern_variant,
                         concrete_variant,
                         program,
+                        enclosing,
                     )
                     .is_ok()
                     {
@@ -1402,12 +1485,15 @@ pub fn unify(
                     }
                 }
                 if !found_match {
-                    return Err(Error::TypeUnresolved(
+                    result = Err(Error::TypeUnresolved(
                         "Cannot unify union variant: concrete has variant that doesn't match any pattern variant".to_string()
                     ));
+                    break;
                 }
             }
-            Ok(())
+            enclosing.pattern.pop();
+            enclosing.concrete.pop();
+            result
         }
 
         // Pattern union with concrete non-union - try each variant
@@ -1415,11 +1501,13 @@ pub fn unify(
             let variants = variants.clone();
             // Try to unify with at least one variant
             let mut errors = Vec::new();
+            enclosing.pattern.push(pattern_id);
             for (i, &variant) in variants.iter().enumerate() {
                 let mut temp_bindings = bindings.clone();
-                match unify(&mut temp_bindings, variant, concrete_id, program) {
+                match unify_in(&mut temp_bindings, variant, concrete_id, program, enclosing) {
                     Ok(()) => {
                         *bindings = temp_bindings;
+                        enclosing.pattern.pop();
                         return Ok(());
                     }
                     Err(e) => {
@@ -1427,6 +1515,7 @@ pub fn unify(
                     }
                 }
             }
+            enclosing.pattern.pop();
             Err(Error::TypeUnresolved(format!(
                 "Cannot unify union pattern ({} variants) with concrete type. Errors: [{}]",
                 variants.len(),
@@ -1440,13 +1529,16 @@ pub fn unify(
         (_, Type::Union(variants)) => {
             let variants = variants.clone();
             let mut temp_bindings = bindings.clone();
-            for &variant in &variants {
-                if unify(&mut temp_bindings, pattern_id, variant, program).is_err() {
-                    return Err(Error::TypeUnresolved(format!(
-                        "Cannot unify pattern with concrete union ({} variants)",
-                        variants.len()
-                    )));
-                }
+            enclosing.concrete.push(concrete_id);
+            let unified = variants.iter().all(|&variant| {
+                unify_in(&mut temp_bindings, pattern_id, variant, program, enclosing).is_ok()
+            });
+            enclosing.concrete.pop();
+            if !unified {
+                return Err(Error::TypeUnresolved(format!(
+                    "Cannot unify pattern with concrete union ({} variants)",
+                    variants.len()
+                )));
             }
             *bindings = temp_bindings;
             Ok(())
